@@ -27,7 +27,7 @@ Definition check (c : case) : bool * bool :=
   | CDoc univ prev listing obs gets =>
     let vals := resolve univ listing in
     let complete := (length vals =? length listing)%nat in
-    let m := doc_update marks_doc_key_current vals prev in
+    let m := doc_update marks_doc_key_current vals (rebuild_start prev) in
     (complete && kvmap_eqb m obs && forallb (get_ok m) gets,
      obs_matches_doc_replay vals obs && forallb (get_ok obs) gets)
   | CDel univ prev before k err after =>
